@@ -135,6 +135,15 @@ type FuncInfo struct {
 	Sha    string `json:"sha"`
 }
 
+// AltResult is what was observed of an alternative rendering of a run.
+type AltResult struct {
+	Name       string `json:"name"`
+	Exit       int    `json:"exit"`
+	Sha        string `json:"sha"`
+	ContentSha string `json:"contentsha"`
+	Files      int    `json:"files"`
+}
+
 // GenResult is what was observed of one plugin run.
 type GenResult struct {
 	Key        string   `json:"key"`
@@ -164,6 +173,7 @@ type GenResult struct {
 	TargetDir  string   `json:"-"`
 	TargetImport string `json:"targetimport"`
 	Registered []string `json:"registered"`
+	Alts       []AltResult `json:"alts"`
 }
 
 func (e *Env) layout(v Variant) concretise.Layout {
@@ -259,6 +269,45 @@ func (e *Env) Generate(v Variant) (*GenResult, error) {
 	r.LicenseOK = len(license) > 0 && strings.HasPrefix(r.Content, string(license))
 	if r.Content != "" {
 		analyse(r)
+	}
+	r.Alts = []AltResult{}
+	for ai, alt := range v.C.Alts {
+		ac := v.C
+		ac.Channel = alt.Channel
+		ad := v.D
+		if len(alt.Msgs) > 0 {
+			ad.Msgs = alt.Msgs
+		}
+		areq := concretise.Request(ad, l)
+		var arng *rand.Rand
+		if alt.Perm != 0 {
+			arng = rand.New(rand.NewSource(int64(alt.Perm)*7919 + v.Seed))
+		}
+		ayaml, acli := concretise.Config(ac, l, arng)
+		ap := filepath.Join(vdir, fmt.Sprintf("config-alt%d.yaml", ai))
+		if err := ioutil.WriteFile(ap, []byte(ayaml), 0o644); err != nil {
+			return nil, err
+		}
+		areq.Parameter = proto.String(strings.Join(append([]string{"config=" + ap}, acli...), ","))
+		ab, err := proto.Marshal(areq)
+		if err != nil {
+			return nil, err
+		}
+		aso, _, aex, err := run(vdir, e.GoEnv, ab, e.PluginBin)
+		if err != nil {
+			return nil, fmt.Errorf("running the plugin (alt %s): %v", alt.Name, err)
+		}
+		asum := sha256.Sum256(aso)
+		ar := AltResult{Name: alt.Name, Exit: aex, Sha: hex.EncodeToString(asum[:])}
+		aresp := &pluginpb.CodeGeneratorResponse{}
+		if gproto.Unmarshal(aso, aresp) == nil {
+			ar.Files = len(aresp.GetFile())
+			if ar.Files >= 1 {
+				cs := sha256.Sum256([]byte(aresp.GetFile()[0].GetContent()))
+				ar.ContentSha = hex.EncodeToString(cs[:])
+			}
+		}
+		r.Alts = append(r.Alts, ar)
 	}
 	if v.NoGogo || r.Content == "" {
 		return r, nil
